@@ -20,6 +20,8 @@ import (
 // histories and SerializeShare samples.  Every op and every observed output goes to the transcript.
 
 func c19Notify(id string, serial int, clean bool) *sm.MiningNotify {
+	// a "/" in a job id is written the way PHP's json_encode writes it: as the (legal) escape \/ — the job is the one named "j/1"
+	id = strings.ReplaceAll(id, "/", `\/`)
 	raw := fmt.Sprintf(`{"id":null,"method":"mining.notify","params":["%s","221a7d5aeda279d8b8455fe56c8dc7d05582575d00038fbf0000000000000000","01000000010000000000000000000000000000000000000000000000000000000000000000ffffffff4b03e1360cfabe6d6d","2e7c42c32d2f736c7573682f00000000",["bed26bac18890c62ab48bdd913ab2b648326286607b3a159987cf36b6fe55d7e"],"20000004","1709a7af","%08x",%v]}`, id, serial, clean)
 	n, err := sm.ParseMiningNotify([]byte(raw))
 	if err != nil {
@@ -38,12 +40,16 @@ func c19Gen(r *vh.Rng, maxOps int) []string {
 	var now int64
 	nIds := 2 + r.Intn(5)
 	fresh := 0
+	sep := ""
+	if r.Bool(20) {
+		sep = "/" // job ids that need a JSON escape on the wire
+	}
 	pickID := func() string {
 		if r.Bool(25) {
 			fresh++
-			return fmt.Sprintf("f%d", fresh)
+			return fmt.Sprintf("f%s%d", sep, fresh)
 		}
-		return fmt.Sprintf("j%d", r.Intn(nIds))
+		return fmt.Sprintf("j%s%d", sep, r.Intn(nIds))
 	}
 	en2size := 2 + r.Intn(7)
 	sharePool := 1 + r.Intn(4)
